@@ -14,6 +14,8 @@
 //   ftoa <bits>                 iwjson_ftoa             -> hex text
 //   rt <pf> <hexdoc>            parse, print with pf, parse the printed text
 //                                                        -> ok <hex printed> ok <dump2> | ... err E_x | err1 E_x | perr E_x
+//   dbl <pf> <bits>             [x] through jbn_as_json and jbl_as_json, first text re-read
+//                                                        -> ok <hex text> <hex text jbl> ok <dump> | ... err E_x | err E_x E_y
 //   jrt <pf> <hexdoc>           jbl_from_json, jbl_as_json (binary form in between) -> ok <hex printed> | err1 E_x | perr E_x
 // dump: n t f i<dec> d<16 hex bits>[:<hex>] s<hex> [ ... ]  { k<hex> <value> ... }
 #include "json/iwjser.c"
@@ -173,6 +175,31 @@ int main(void) {
           jbl_destroy(&jbl);
         }
       }
+      iwpool_destroy(pool);
+    } else if (!strcmp(cmd, "dbl") && tn >= 3) {
+      // value-level oracle input for doubles: the array [x] printed by jbn_as_json and by jbl_as_json, and re-read
+      int pf = atoi(tv[1]);
+      uint64_t b = strtoull(tv[2], 0, 16);
+      struct iwpool *pool = iwpool_create(0);
+      struct jbl_node *arr = mk(pool, JBV_ARRAY), *d = mk(pool, JBV_F64), *n2 = 0;
+      memcpy(&d->vf64, &b, 8);
+      jbn_add_item(arr, d);
+      struct iwxstr *x = iwxstr_create_empty(), *y = iwxstr_create_empty();
+      struct jbl *jbl = 0;
+      iwrc rc = jbn_as_json(arr, jbl_xstr_json_printer, x, (jbl_print_flags_t) pf);
+      iwrc rc2 = jbl_from_node(&jbl, arr);
+      if (!rc2) rc2 = jbl_as_json(jbl, jbl_xstr_json_printer, y, (jbl_print_flags_t) pf);
+      if (rc || rc2) printf("err %s %s\n", rc ? ename(rc) : "-", rc2 ? ename(rc2) : "-");
+      else {
+        printf("ok "); puthex(iwxstr_ptr(x), iwxstr_size(x)); printf(" "); puthex(iwxstr_ptr(y), iwxstr_size(y));
+        errno = 0;
+        rc = jbn_from_json(iwxstr_ptr(x), &n2, pool);
+        if (rc) printf(" err %s\n", ename(rc));
+        else if (!n2) printf(" none\n");
+        else { printf(" ok"); dump(n2); printf("\n"); }
+      }
+      if (jbl) jbl_destroy(&jbl);
+      iwxstr_destroy(x); iwxstr_destroy(y);
       iwpool_destroy(pool);
     } else if (!strcmp(cmd, "unesc") && tn >= 3) {
       uint8_t *s; unhex(tv[1], &s);
